@@ -56,6 +56,8 @@ class Cfg(object):
         self.portfolio = False         # on `unknown` in prove(): re-ask /usr/bin/z3 4.8.12, z3 5.1 CLI and cvc5 1.4 on the SMT-LIB2 dump
         self.portfolio_s = 60
         self.portfolio_logic = None
+        self.crosscheck_rate = 0.0     # fraction of discharged obligations re-decided by the portfolio (thorough tier)
+        self.seed = 0
         self.home = None               # property that owns the un-prefixed obligation labels of this harness body
         self.pid = None                # property being decided: obligations labelled 'Cxx:...' of other properties are skipped
         self.refine_ms = 6000          # NRA budget for refining a counterexample found under the UF abstraction
@@ -410,6 +412,16 @@ class Path(object):
             rec['detail'] = detail
         if rs == 'unsat':
             rec['result'] = 'discharged'
+            if self.cfg.crosscheck_rate and not self.cfg.portfolio:
+                # second opinion on a sample of discharged obligations (other z3 version, cvc5): a `sat` from any of them is a harness error
+                import zlib
+                hsh = zlib.crc32(("%s|%d|%d|%s|%d" % (label, len(self.obls), self.nq, "".join("T" if t[1] else "F" for t in self.trace if t[0] == "d")[-40:], self.cfg.seed)).encode()) % 100000
+                if hsh < self.cfg.crosscheck_rate * 100000:
+                    self.last_portfolio = []
+                    self._portfolio([z3.Not(term)])
+                    self.notes.append('crosschecked:' + ','.join(self.last_portfolio or ['none']))
+                    if 'sat' in (self.last_portfolio or []):
+                        self.notes.append('SOLVER DISAGREEMENT: %s discharged by z3 %s but sat for a portfolio member' % (label, z3.get_version_string()))
         elif rs == 'sat':
             refined = None
             if self.cfg.uflin and self.exact and self.nrefine < 3:
@@ -484,6 +496,7 @@ class Path(object):
                 except OSError:
                     pass
             self.nq += 1
+            self.last_portfolio = list(verdicts)
             if 'unsat' in verdicts and 'sat' not in verdicts:
                 return 'unsat'
             if 'sat' in verdicts and 'unsat' in verdicts:
@@ -784,6 +797,7 @@ def _absorb(res, r, pending, keep_paths, on_result):
             'status': r['status'],
             'one_input_of_this_path': ({k: (float(v) if isinstance(v, Fraction) else v) for k, v in list(r['witness'].items())[:24]}
                                        if r.get('witness') else None)})
+    res.notes.extend([n_ for n_ in r['notes'] if n_.startswith('crosschecked:') or 'DISAGREEMENT' in n_])
     res.notes.extend(r['notes'][:5] if not PROFILE else r['notes'])
     res.events.extend(r.get('events', [])[:50] if len(res.events) < 500 else [])
     pending.extend(r['pending'])
